@@ -218,6 +218,10 @@ class ModbusSparseDataBlock(BaseModbusDataBlock):
         '''
         return klass([0x00] * 65536)
 
+    def reset(self):
+        ''' Resets the datastore to the initialized default value '''
+        self.values = dict.fromkeys(self.values, self.default_value)
+
     def validate(self, address, count=1):
         ''' Checks to see if the request is in range
 
